@@ -107,7 +107,9 @@ func (r *Run) sameValueTerms(fn *ssa.Function, term string) []string {
 //	scan    the comparison list[j] == leafEKU inside a scan (equal ⇒ leafEKU is element j of list).
 //
 // "No hit" is the valuation in which that test fails every time it is evaluated.
-func c02RequiredEKU(r *Run, fn *ssa.Function, leaf string, vi []ssa.Instruction) {
+//
+// Returns the atoms of the filter's decision region (list length, membership test).
+func c02RequiredEKU(r *Run, fn *ssa.Function, leaf string, vi []ssa.Instruction) []RuleAtom {
 	lists := r.sameValueTerms(fn, "p1.extKeyUsages")
 	set := "make:map[x509.ExtKeyUsage]*[*]*"
 	nAtom := RuleAtom{Name: "n", OrdA: "0", OrdB: "len(p1.extKeyUsages)"}
@@ -182,6 +184,7 @@ func c02RequiredEKU(r *Run, fn *ssa.Function, leaf string, vi []ssa.Instruction)
 			r.Check("ValidateChain:required-EKU-set", anyGlob(strings.Join(setKeys, " || "), a) && strings.Count(a, "extKeyUsages") <= 1, r.FnPos(fn), "… with "+a+", an element of the configured list p1.extKeyUsages")
 		}
 	}
+	return []RuleAtom{nAtom, hit}
 }
 
 var _ = fmt.Sprintf
